@@ -138,6 +138,23 @@ func (w *vfC13World) Do(o vfC13Op) error {
 		}
 	}()
 	switch o.Kind {
+	case "load":
+		// a request of the client user that is not a pull (a document fetch): loads the user and the
+		// roles assigned right now, which records pending grant-history entries
+		coll, user, err := w.Env.AsUser(vfC13Client)
+		if err != nil {
+			return fmt.Errorf("load: %w", err)
+		}
+		// what every authorised request of the user does: expand the channels inherited through roles
+		if _, err := user.InheritedCollectionChannels(w.Env.Coll.ScopeName, w.Env.Coll.Name); err != nil {
+			return fmt.Errorf("load: %w", err)
+		}
+		for _, id := range vfSortedKeys(w.M.Docs) {
+			_, _ = coll.GetRev(ctx, id, "", false, nil) // answered or refused, either is fine here
+			break
+		}
+		w.M.NoteLoad(vfC13Client)
+		return nil
 	case "put":
 		body := Body{"chans": o.Chans}
 		if len(o.GU) > 0 && len(o.GC) > 0 {
@@ -267,6 +284,7 @@ func (w *vfC13World) Pull(limits []int) (fail *vfC13Fail, err error) {
 		if uerr != nil {
 			return nil, fmt.Errorf("loading user: %w", uerr)
 		}
+		w.M.NoteLoad(vfC13Client)
 		t1 := time.Now()
 		rows, cerr := vfChanges(w.Env.Ctx, coll, nil, ChangesOptions{Since: w.R.Since, Limit: limit, Revocations: true})
 		w.tChanges += time.Since(t1)
